@@ -358,7 +358,8 @@ class WsgiApplication(HttpBase):
         if self.doc.wsdl11 is None:
             start_response(HTTP_404,
                                   _gen_http_headers(ctx.transport.resp_headers))
-            return [HTTP_404]
+            ctx.close()
+            return [HTTP_404.encode('ascii')]
 
         if self._wsdl is None:
             self._wsdl = self.doc.wsdl11.get_interface_document()
@@ -384,8 +385,9 @@ class WsgiApplication(HttpBase):
 
                 start_response(HTTP_500,
                                   _gen_http_headers(ctx.transport.resp_headers))
+                ctx.close()
 
-                return [HTTP_500]
+                return [HTTP_500.encode('ascii')]
 
             finally:
                 self._mtx_build_interface_document.release()
